@@ -641,7 +641,7 @@ package aml
 //@   ensures detached: obj != nil ==> obj.tableHandle == p.tableHandle && obj.parentIndex == InvalidIndex && obj.prevSiblingIndex == InvalidIndex && obj.nextSiblingIndex == InvalidIndex && obj.firstArgIndex == InvalidIndex && obj.lastArgIndex == InvalidIndex && obj.amlOffset == old(p.r.offset)
 //@   ensures num: numArg(argType) ==> obj != nil && obj.opcode == numPrefix(argType) && typeis(obj.value, uint64) && (res == parseResultOk <==> uint64(old(p.r.offset)) + uint64(numWidth(argType)) <= uint64(p.r.pkgEnd)) && (res == parseResultOk ==> p.r.offset == old(p.r.offset) + uint32(numWidth(argType)) && forall(c, uint8, c < 8 ==> uint8(unbox(obj.value, uint64) >> (8 * uint64(c))) == ite(c < numWidth(argType), byteAt(p, old(p.r.offset) + uint32(c)), 0)))
 //@   ensures str: argType == pArgTypeString ==> obj != nil && obj.opcode == pOpStringPrefix && typeis(obj.value, []byte) && inTable(rd(p), unbox(obj.value, []byte)) && (len(unbox(obj.value, []byte)) > 0 ==> dataptr(unbox(obj.value, []byte)) == dataptr(p.r.data) + uintptr(old(p.r.offset))) && (res == parseResultOk ==> p.r.offset == old(p.r.offset) + uint32(len(unbox(obj.value, []byte))) + 1)
-//@   ensures name: argType == pArgTypeNameString ==> obj != nil && obj.opcode == pOpIntNamePath && typeis(obj.value, []byte) && inTable(rd(p), unbox(obj.value, []byte)) && (res == parseResultOk && len(unbox(obj.value, []byte)) > 0 ==> dataptr(unbox(obj.value, []byte)) == dataptr(p.r.data) + uintptr(old(p.r.offset)) && uint64(old(p.r.offset)) + uint64(len(unbox(obj.value, []byte))) == uint64(p.r.offset))
+//@   ensures name: argType == pArgTypeNameString ==> obj != nil && obj.opcode == pOpIntNamePath && typeis(obj.value, []byte) && inTable(rd(p), unbox(obj.value, []byte)) && (res == parseResultOk && len(unbox(obj.value, []byte)) > 0 ==> dataptr(unbox(obj.value, []byte)) == dataptr(p.r.data) + uintptr(old(p.r.offset))) && (res == parseResultOk ==> uint64(old(p.r.offset)) + uint64(len(unbox(obj.value, []byte))) + ite(nameEndsInNull(p, old(p.r.offset), p.r.offset), 1, 0) == uint64(p.r.offset))
 
 // parseObjectArgs (C11, partial): a constant or string opcode reads its value straight into the
 // object - the little-endian constant of 1/2/4/8 bytes, or the string bytes, at the read
